@@ -1,4 +1,5 @@
 import CfrVerif.Proofs.RateSolve
+import CfrVerif.Proofs.Unbiased
 import CfrVerif.Props.C05
 /-!
 # C04 — convergence of the sampled solvers: what is a theorem, and what is not
@@ -162,5 +163,19 @@ example (T : ℕ) (thr : Option (Ext ℝ)) :
       < ws.length := fun _ _ _ ws h => List.length_pos_of_ne_nil h
   exact ⟨(sampled_bound_pathwise C05.tinyGame C05.tinyGame_wf (-1) 1 hp 2 hA _ hd T thr).1,
     (external_bound_pathwise C05.tinyGame C05.tinyGame_wf (-1) 1 hp 2 hA _ hd T thr).2⟩
+
+/-! ## unbiasedness (proved in `Proofs/Unbiased.lean`) -/
+
+/-- **chance sampling is unbiased for the regrets**: the expectation over the draws of one pass
+(explicit finite sum over the product of the declared chance distributions) of what the sampled
+traversal adds to any regret accumulator equals what the unsampled traversal adds — the exact
+instantaneous counterfactual regret — provided no chance infoset repeats on a path (known
+finding F16 otherwise; counterexample in `Proofs/Unbiased.lean`) -/
+theorem chance_sampling_unbiased (g : Game ℝ) (hg : GameWF g) (hnr : NoChanceRepeat [] g.root)
+    (strat : Bool → Nat → List ℝ) (pass : Nat) (me : Bool) (I a : Nat) :
+    expectDraws g.chance 0 (fun _ => 0)
+        (fun k => effSum (vrec (sampledCtx g strat pass k) g.root 1 1 1 {}).2.1 me I Slot.regret a)
+      = effSum (vrec (fullCtx g strat pass) g.root 1 1 1 {}).2.1 me I Slot.regret a :=
+  sampled_pass_unbiased g hg hnr strat pass me I a
 
 end Cfr
